@@ -10,6 +10,10 @@
 //! here (plane projection + inside test + three segment projections; it shares no code with parry).
 //! Near-surface part: queries 1e-7 .. 1e-2 off faces, edges and corners (oblique offsets) of a box, a strip, a thin quad
 //! and an open roof: closest point / distance and Mesh::measure_point_deviation magnitudes against the brute-force distance.
+//! UV wrappers (round 3): Mesh::uv_with_tol on UV-mapped meshes (open roof, two-triangle strip, box with one chart per face),
+//! queries given directly and in another frame (transform = Some(T), T a translation / quarter turn / general rotation / 1e-3 rad
+//! rotation, each with a translation): acceptance under the distance cap and the angle filter for the point T * p moved ONCE,
+//! uv = UV image of the brute-force closest point, depth = offset along that face's normal.
 use super::Report;
 use crate::geom2::{Curve2, Point2};
 use crate::geom3::{Curve3, Iso3, Mesh, Point3, Vector3};
@@ -440,10 +444,113 @@ fn near_surface(r: &mut Report) {
     check_deviation(r, "open roof (ridge y=1.5, z=2)", &roof, &|_| false);
 }
 
+
+// ------------------------------------------------------------------------------------------------ UV wrappers
+fn bary(t: &[Point3; 3], p: &Point3) -> [f64; 3] {
+    let n = (t[1] - t[0]).cross(&(t[2] - t[0]));
+    let n2 = n.norm_squared();
+    [(t[1] - p).cross(&(t[2] - p)).dot(&n) / n2, (t[2] - p).cross(&(t[0] - p)).dot(&n) / n2, (t[0] - p).cross(&(t[1] - p)).dot(&n) / n2]
+}
+/// Mesh::uv_with_tol (the UV wrapper of project_with_tol) against the brute-force oracle: acceptance under the distance cap and
+/// the angle filter, uv = image of the closest point in the UV map, depth = offset along the face normal; queries given
+/// directly (None) and in another frame (Some(T), T not the identity)
+fn check_uv(r: &mut Report, name: &str, m: &Mesh, uvv: &[Point2], uvf: &[[u32; 3]], queries: &[Point3]) {
+    let t = tris(m);
+    let nf = t.len();
+    let normals: Vec<Vector3> = t.iter().map(tri_normal).collect();
+    let tfs: Vec<(&str, Option<Iso3>)> = vec![
+        ("None", None),
+        ("Some(translation (1,-2,3))", Some(Iso3::from_parts(Translation3::new(1.0, -2.0, 3.0), UnitQuaternion::identity()))),
+        ("Some(Rz90 then +(-1,0.5,2))", Some(Iso3::from_parts(Translation3::new(-1.0, 0.5, 2.0), UnitQuaternion::from_axis_angle(&Vector3::z_axis(), PI / 2.0)))),
+        ("Some(0.7 rad about (1,2,3) then +(0.25,-4,1.5))", Some(Iso3::from_parts(Translation3::new(0.25, -4.0, 1.5), UnitQuaternion::from_axis_angle(&na::Unit::new_normalize(Vector3::new(1.0, 2.0, 3.0)), 0.7)))),
+        ("Some(1e-3 rad about x then +(0.5,0,0))", Some(Iso3::from_parts(Translation3::new(0.5, 0.0, 0.0), UnitQuaternion::from_axis_angle(&Vector3::x_axis(), 1e-3)))),
+    ];
+    let angles = [0.1, 0.5, 1.0, 1.5, 2.0];
+    for q in queries { for (tn, tf) in tfs.iter() {
+        // the query as the mesh sees it is qq = T * arg; arg is what the caller passes
+        let (arg, qq) = match tf { None => (*q, *q), Some(x) => { let a = x.inverse() * q; (a, x * a) } };
+        let bb = brute(&t, &qq);
+        if bb.dmin < 1e-6 { continue; }
+        r.case();
+        let near: Vec<usize> = (0..nf).filter(|&f| bb.d[f] <= bb.dmin + EPS * (1.0 + bb.dmin)).collect();
+        let mut caps = vec![bb.dmin + 0.5, 0.5 * bb.dmin];
+        for c in [0.25, 1.25] { if (bb.dmin - c).abs() > 1e-3 { caps.push(c); } }
+        for &cap in caps.iter() { for &ma in angles.iter() {
+            let res = m.uv_with_tol(&arg, cap, ma, tf.as_ref());
+            let d = || format!("{} query as seen by the mesh ({:?}, {:?}, {:?}), passed as ({:?}, {:?}, {:?}) with transform {}, max_dist {:?}, max_angle {:?}; brute-force distance {:?}; uv_with_tol = {:?}", name, qq.x, qq.y, qq.z, arg.x, arg.y, arg.z, tn, cap, ma, bb.dmin, res);
+            if bb.dmin > cap {
+                r.check(res.is_none(), "uv_with_tol: nothing is returned when the true distance of (transform * point) exceeds the distance cap", d);
+                continue;
+            }
+            let verdicts: Vec<Tri> = near.iter().map(|&f| accepts(&normals[f], &(qq - bb.cp[f]), ma)).collect();
+            if verdicts.iter().all(|v| *v == Tri::Yes) {
+                r.check(res.is_some(), "uv_with_tol: a point (transform * point) within the distance cap whose offset is within the stated angle of the face normal is accepted", d);
+            } else if verdicts.iter().all(|v| *v == Tri::No) {
+                r.check(res.is_none(), "uv_with_tol: a point (transform * point) whose offset is NOT within the stated angle of the face normal is rejected", d);
+            }
+            if let Some((uv, depth)) = res {
+                // the answer must be that of one of the nearest faces that does not reject
+                let ok = near.iter().zip(verdicts.iter()).any(|(&f, v)| {
+                    if *v == Tri::No { return false; }
+                    let bc = bary(&t[f], &bb.cp[f]);
+                    let g = uvf[f];
+                    let want = uvv[g[0] as usize].coords * bc[0] + uvv[g[1] as usize].coords * bc[1] + uvv[g[2] as usize].coords * bc[2];
+                    eq(uv.x, want.x) && eq(uv.y, want.y) && eq(depth, normals[f].dot(&(qq - bb.cp[f])))
+                });
+                r.check(ok, "uv_with_tol: uv is the image in the UV map of the closest point to (transform * point) and depth its offset along that face's normal", d);
+            }
+        } }
+    } }
+}
+
+fn uv_wrappers(r: &mut Report) {
+    let p = |x: f64, y: f64, z: f64| Point3::new(x, y, z);
+    let u = |x: f64, y: f64| Point2::new(x, y);
+    let mk = |v: Vec<Point3>, f: Vec<[u32; 3]>, uvv: &Vec<Point2>, uvf: &Vec<[u32; 3]>| {
+        let uv = crate::geom3::UvMapping::new(uvv.clone(), uvf.clone()).unwrap();
+        Mesh::new_with_uv(v, f, false, Some(uv))
+    };
+    let far = [p(5.0, 1.5, 2.0), p(-4.0, -4.0, -4.0), p(1.0, 8.0, 2.0), p(0.75, 1.25, 1.125)];
+    // 1. open roof, UV = the unfolded roof (continuous across the ridge)
+    let f = vec![[0u32, 1, 3], [0, 3, 2], [2, 3, 5], [2, 5, 4]];
+    let uvv = vec![u(0.0, 0.0), u(4.0, 0.0), u(0.0, 2.5), u(4.0, 2.5), u(0.0, 5.0), u(4.0, 5.0)];
+    let m = mk(vec![p(0.0, 0.0, 0.0), p(4.0, 0.0, 0.0), p(0.0, 1.5, 2.0), p(4.0, 1.5, 2.0), p(0.0, 3.0, 0.0), p(4.0, 3.0, 0.0)], f.clone(), &uvv, &f);
+    let mut qs = grid3((-1.0, -1.0, -1.0), (5.0, 4.0, 3.0), (1.0, 0.5, 0.5));
+    qs.extend(far);
+    check_uv(r, "UV-mapped open roof (ridge y=1.5, z=2; uv = (x, arc length across))", &m, &uvv, &f, &qs);
+    // 2. non-planar two-triangle strip, UV = (x, y)
+    let f = vec![[0u32, 1, 2], [1, 3, 2]];
+    let uvv = vec![u(0.0, 0.0), u(2.0, 0.0), u(0.0, 2.0), u(2.0, 2.0)];
+    let m = mk(vec![p(0.0, 0.0, 0.0), p(2.0, 0.0, 0.0), p(0.0, 2.0, 0.0), p(2.0, 2.0, 1.0)], f.clone(), &uvv, &f);
+    let mut qs = grid3((-1.0, -1.0, -1.0), (3.0, 3.0, 2.0), (0.5, 0.5, 0.5));
+    qs.extend(far);
+    check_uv(r, "UV-mapped two-triangle strip (uv = (x, y))", &m, &uvv, &f, &qs);
+    // 3. box 2x3x4 with an atlas: face k is drawn on its own chart at (8k, 0) (discontinuous across every edge)
+    let bx = Mesh::create_box(2.0, 3.0, 4.0, false);
+    let (bv, bf) = (bx.vertices().to_vec(), bx.faces().to_vec());
+    let mut uvv = vec![];
+    let mut uvf = vec![];
+    for (k, t) in bf.iter().enumerate() {
+        let (a, b, c) = (bv[t[0] as usize], bv[t[1] as usize], bv[t[2] as usize]);
+        let e = (b - a).normalize();
+        let nn = (b - a).cross(&(c - a)).normalize();
+        let w = nn.cross(&e);
+        let base = uvv.len() as u32;
+        for x in [a, b, c] { uvv.push(u(8.0 * k as f64 + (x - a).dot(&e), (x - a).dot(&w))); }
+        uvf.push([base, base + 1, base + 2]);
+    }
+    let m = mk(bv, bf, &uvv, &uvf);
+    let mut qs = grid3((-1.0, -1.0, -1.0), (3.0, 4.0, 5.0), (1.0, 1.0, 1.0));
+    qs.extend(grid3((0.25, 0.25, -0.75), (1.75, 2.75, 4.75), (0.75, 1.25, 5.5)));
+    qs.extend(far);
+    check_uv(r, "UV-mapped box 2x3x4 (atlas: face k on its own chart at (8k, 0))", &m, &uvv, &uvf, &qs);
+}
+
 pub fn run() -> Option<Report> {
-    let mut r = Report::new("curves: all 2..=3-vertex sequences over the 3x3 grid (2D, x force_closed) / over {0,1}^3 (3D), 7 + 5 fixed polylines with 4..=33 vertices (long thin, nested, nearly coincident, self-crossing, doubled back); meshes: box, box + disjoint box, box + nested box, two-triangle strip, two nearly coincident triangles, long thin quad, solid and non-solid; queries on half/quarter-integer grids reaching 1 beyond the bounding box plus far-outside points (inside points for non-solid meshes only); caps 0.5*d, d+0.5, 2d+1, 0.25, 1.25, 5 (never within 1e-3 of the true distance d); max_angle in {0.1, 0.5, 1, 1.5, 2} rad with a 1e-6 rad undecided margin; transforms None / translation / quarter turn + translation; oracle = brute force over all segments / triangles, tolerance 1e-9 relative; NEAR-SURFACE: box 2x3x4 (solid and not), two-triangle strip, long thin quad, open roof x base points (every corner, two points inside every triangle edge, one inside every face) x 30 offset directions (6 axes, 24 of type (+-1,+-2,+-3)) x offsets 1e-7, 1e-6, 1e-5, 1e-4, 1e-3, 1e-2: closest point / distance / normal and Mesh::measure_point_deviation (ToPoint magnitude and sign, ToPlane) against the brute-force distance (below the documented 1e-6 epsilon the ToPoint magnitude is judged to 1e-6)");
+    let mut r = Report::new("curves: all 2..=3-vertex sequences over the 3x3 grid (2D, x force_closed) / over {0,1}^3 (3D), 7 + 5 fixed polylines with 4..=33 vertices (long thin, nested, nearly coincident, self-crossing, doubled back); meshes: box, box + disjoint box, box + nested box, two-triangle strip, two nearly coincident triangles, long thin quad, solid and non-solid; queries on half/quarter-integer grids reaching 1 beyond the bounding box plus far-outside points (inside points for non-solid meshes only); caps 0.5*d, d+0.5, 2d+1, 0.25, 1.25, 5 (never within 1e-3 of the true distance d); max_angle in {0.1, 0.5, 1, 1.5, 2} rad with a 1e-6 rad undecided margin; transforms None / translation / quarter turn + translation; oracle = brute force over all segments / triangles, tolerance 1e-9 relative; NEAR-SURFACE: box 2x3x4 (solid and not), two-triangle strip, long thin quad, open roof x base points (every corner, two points inside every triangle edge, one inside every face) x 30 offset directions (6 axes, 24 of type (+-1,+-2,+-3)) x offsets 1e-7, 1e-6, 1e-5, 1e-4, 1e-3, 1e-2: closest point / distance / normal and Mesh::measure_point_deviation (ToPoint magnitude and sign, ToPlane) against the brute-force distance (below the documented 1e-6 epsilon the ToPoint magnitude is judged to 1e-6); UV WRAPPERS: Mesh::uv_with_tol on 3 UV-mapped meshes (open roof with the unfolded UV, two-triangle strip with uv = (x, y), box 2x3x4 with one chart per face) x integer / half-integer query grids reaching 1 beyond the bounding box plus far points (queries closer than 1e-6 skipped) x transform None / Some(translation) / Some(quarter turn + translation) / Some(0.7 rad about (1,2,3) + translation) / Some(1e-3 rad about x + translation) x caps {d+0.5, d/2, 0.25, 1.25} x max_angle {0.1, 0.5, 1, 1.5, 2}: nothing is returned beyond the cap, acceptance follows the angle of the offset of (transform * point) to the normal of the nearest face(s), uv / depth are those of a nearest non-rejecting face (brute force)");
     curves(&mut r);
     meshes(&mut r);
     near_surface(&mut r);
+    uv_wrappers(&mut r);
     Some(r)
 }
